@@ -95,9 +95,10 @@ def worker(job):
         v = VF.Verifier(MIDDLEWARE)
         quick_ms = 300 if tier == "quick" else 1000
         cli_s = 20 if tier == "quick" else 120
+        cheap = {ok for k in load_known() if k.get("status", "known") == "known" for ok in k["obligations"]}
         res = R.verify_contract(v, cls, quick_ms=quick_ms, cli_timeout_s=cli_s,
                                 all_solvers=(tier == "thorough"), seed=seed,
-                                workdir=os.path.join(HERE, ".work"))
+                                workdir=os.path.join(HERE, ".work"), cheap_keys=cheap)
         obs = []
         for ob in res["obligations"]:
             r = ob.result
@@ -138,6 +139,8 @@ def main():
     ap.add_argument("--only", default=None)
     ap.add_argument("--jobs", type=int, default=min(16, os.cpu_count() or 4))
     ap.add_argument("-v", action="store_true")
+    ap.add_argument("--write-baseline", action="store_true",
+                    help="(maintenance, unchanged tree only) record the obligations discharged by this run")
     a = ap.parse_args()
     seed = int(os.environ.get("VERIF_SEED", "0") or 0)
     t0 = time.time()
@@ -278,6 +281,12 @@ def main():
             print("CHECKER-ERROR %s: %s" % (f, e))
         exit_code = 3 if exit_code != 1 else 1
 
+    if a.write_baseline and exit_code == 0:
+        base = load_baseline()
+        keys = sorted({o["key"] for r in results for o in r["obligations"]
+                       if a.prop in o["serves"] and o["verdict"] == "unsat"})
+        base[a.prop] = keys
+        json.dump(base, open(os.path.join(HERE, "baseline_obligations.json"), "w"), indent=0, sort_keys=True)
     wall = time.time() - t0
     level = info["level"]
     has_known = bool(reported_known)
